@@ -18,14 +18,15 @@ type SVal struct {
 
 // Env is the evaluation context of a spec expression.
 type Env struct {
-	vc     *FuncVC
-	st     *State
-	old    *State
-	vars   map[string]SVal
-	lookup func(name string) (SVal, bool)
-	ctx    *PkgCtx
-	visKey string // state component of the map-range visited set for `visited(k)`
-	depth  int
+	vc        *FuncVC
+	st        *State
+	old       *State
+	vars      map[string]SVal
+	lookup    func(name string) (SVal, bool)
+	ctx       *PkgCtx
+	visKey    string // state component of the map-range visited set for `visited(k)`
+	loopAlloc Term   // alloc array at the start of the enclosing loop (for newsince)
+	depth     int
 }
 
 func (e *Env) child() *Env {
@@ -699,6 +700,20 @@ func (e *Env) evalCall(n *ast.CallExpr) (SVal, error) {
 			}
 			oldAlloc := vc.cur(e.old, "alloc")
 			return SVal{And(Not(Eq(r, Null)), Not(Select(oldAlloc, App(SRef, "root", r), SBool))), boolT}, nil
+		case "newsince":
+			// the object was allocated after the enclosing loop started (or the reference is nil)
+			if e.loopAlloc.S == "" {
+				return SVal{}, fmt.Errorf("spec expr: newsince() outside a loop invariant")
+			}
+			v, err := e.Eval(n.Args[0])
+			if err != nil {
+				return SVal{}, err
+			}
+			r := v.T
+			if r.Sort == SSlice {
+				r = App(SRef, "sarr", r)
+			}
+			return SVal{Or(Eq(r, Null), Not(Select(e.loopAlloc, App(SRef, "root", r), SBool))), boolT}, nil
 		case "allocated":
 			v, err := e.Eval(n.Args[0])
 			if err != nil {
